@@ -86,6 +86,7 @@ func c17(tier string) int {
 			run.Report("aslogmap file="+fname, fmt.Sprintf("omniwitness/%s: AsLogMap fails (start-up would abort): %v", fname, mapErr), rep(-1, ""))
 		}
 		ids := map[string]string{}
+		firstURL := map[string]string{}
 		var listIDs []string
 		for i, l := range cfg.Logs {
 			evals++
@@ -150,6 +151,22 @@ func c17(tier string) int {
 				ru, _ := url.Parse(tr.urls[0])
 				if ru == nil || ru.Host != u.Host || ru.Scheme != u.Scheme {
 					run.Report(sig("feeder-wrong-host"), fmt.Sprintf("entry %d (%s): first request went to %s, configured URL is %s", i, l.Origin, tr.urls[0], l.URL), rep(i, l.Origin))
+				} else {
+					// ... and to a resource BELOW the configured URL taken as a
+					// directory (a URL the feeder resolves relative references
+					// against must not lose its last segment).
+					dir := strings.TrimSuffix(u.Path, "/") + "/"
+					if !strings.HasPrefix(ru.Path, dir) {
+						run.Report(sig("feeder-leaves-configured-url"), fmt.Sprintf("entry %d (%s): configured URL %s, but its feeder's first request went to %s, which is not below it", i, l.Origin, l.URL, tr.urls[0]), rep(i, l.Origin))
+					}
+					// No two entries (other than the Rekor shards, which share
+					// one endpoint and differ by treeID) read the same resource.
+					if l.Feeder != omniwitness.Rekor {
+						if prev, dup := firstURL[tr.urls[0]]; dup {
+							run.Report(sig("two-entries-one-resource"), fmt.Sprintf("entry %d (%s) and entry %q both start from %s", i, l.Origin, prev, tr.urls[0]), rep(i, l.Origin))
+						}
+						firstURL[tr.urls[0]] = l.Origin
+					}
 				}
 				run.Add("feeders_started", 1)
 			}
@@ -169,6 +186,6 @@ func c17(tier string) int {
 	}
 	run.Set("evaluations", evals)
 	run.Set("exhaustive", true)
-	run.Set("rule", "every entry of omniwitness/logs.yaml (embedded ConfigLogs, checked equal to the working-tree file) and omniwitness/logs_test.yaml, through the functions Main uses: yaml.Unmarshal into LogConfig, config.NewLog (verifier name/hash vs key string), ID uniqueness, feeder enum known, AsLogMap, then the entry's feeder is started once (interval 0) with an HTTP transport that fails every request - it must reach the network (first request to the configured host) and return a transport error without panicking; witness map IDs == feeder/bastion list IDs. distinct_nontrivial = distinct entries")
+	run.Set("rule", "every entry of omniwitness/logs.yaml (embedded ConfigLogs, checked equal to the working-tree file) and omniwitness/logs_test.yaml, through the functions Main uses: yaml.Unmarshal into LogConfig, config.NewLog (verifier name/hash vs key string), ID uniqueness, feeder enum known, AsLogMap, then the entry's feeder is started once (interval 0) with an HTTP transport that fails every request - it must reach the network (first request to the configured host, to a resource below the configured URL taken as a directory, and not to a resource another non-Rekor entry starts from) and return a transport error without panicking; witness map IDs == feeder/bastion list IDs. distinct_nontrivial = distinct entries")
 	return run.Finish()
 }
